@@ -302,4 +302,23 @@ example : saitheStep (fun x _ => decide (x < (6:Int))) (fun x _ => decide (x < 3
 
 end swim
 
+/-! ## binary64: the half-open cell is not respected for the largest draw (known finding F-C11b)
+
+`reseed_in_cell` above is a statement over an ordered field.  In IEEE binary64 the sum
+`round(X) − 0.5 + u` with the largest value the generator can return, `u = 1 − 2⁻⁵³`, rounds up to exactly
+`round(X) + 0.5` (checked by the kernel's evaluation of `Float` arithmetic): -/
+theorem reseed_binary64_touches_upper_border :
+    ((9.0 : Float) - 0.5 + 0.9999999999999999 == 9.5) = true ∧
+    ((9.0 : Float) - 0.5 + 0.9999999999999999 < 9.5) = false := by
+  constructor <;> decide +kernel
+
+/-- the same happens for every draw within half a unit in the last place of the border (here also `1 − 2⁻⁵²`):
+the probability per re-seeded coordinate is about `ulp(round X) / 2 ≈ round(X) · 1.1e-16` … -/
+theorem reseed_binary64_second_largest_draw_too :
+    ((9.0 : Float) - 0.5 + 0.9999999999999998 == 9.5) = true := by decide +kernel
+
+/-- … and draws farther from 1 stay strictly inside -/
+theorem reseed_binary64_smaller_draw_inside :
+    ((9.0 : Float) - 0.5 + 0.999999999999999 < 9.5) = true := by decide +kernel
+
 end C11
